@@ -1194,3 +1194,25 @@ def check_fixed_area(rule, kind, root=None):
                 g2 = any(t.startswith("x") for t in r2)
                 if g1 != g2:
                     rule.bad("a64|%s|frame|overlap" % kind, "aarch64 %s: the save slot of %s at sp + %#x overlaps the slot of %s at sp + %#x" % (kind, sorted(r1), o1, sorted(r2), o2), p)
+
+
+INT_CMP = ("cmeq", "cmgt", "cmge", "cmhi", "cmhs", "cmlt", "cmle", "cmtst")
+
+
+def check_int_compare(rule, kind, root=None):
+    """tape values are floats: comparing them with the integer compares (cmeq ..) tells -0.0 from +0.0 and
+    orders NaN payloads, unlike the interpreter's `== 0.0` / `<` - every sibling clause uses fcmeq / fcmgt"""
+    p = X.path_of(kind)
+    builders = X.load_builders(p, root)
+    n = 0
+    for name, b in sorted(op_builders(builders).items()):
+        ins = X.flat_ins(b)
+        hits = [x for x in ins if x.label is None and x.mnem in INT_CMP and any(o.kind == "vec" and o.name.startswith("T:") for o in x.ops[1:])]
+        fl = [x for x in ins if x.label is None and x.mnem in ("fcmeq", "fcmgt", "fcmge", "fcmlt", "fcmle", "fcmp")]
+        for x in hits:
+            n += 1
+            rule.bad("a64|%s|%s|%s" % (kind, name, x.mnem), "aarch64 %s %s: `%r` compares float data as integers: -0.0 (0x80000000) is not equal to 0, so e.g. not(-0.0) is 0 here and 1 in the interpreter (`== 0.0`) and in every sibling assembler (fcmeq)" % (kind, name, x), "%s:%d" % (p, x.ln))
+        if fl and not hits:
+            n += 1
+            rule.ok("aarch64 %s %s compares its operands as floats (%d compare(s))" % (kind, name, len(fl)), file=p, line=b.fn["ln"])
+    return n
